@@ -76,6 +76,8 @@ def run(ctx: Ctx):
             flag = cand
     ctx.extra["box_parameter"] = box
     ctx.extra["inverse_flag"] = flag
+    from ..util import persistent_state
+    persistent_state(ctx, "R19.2", [f_ for f_ in (ctx.repo.func(q_, required=False) for q_ in ('Residue.distance_to',)) if f_ is not None], "the periodic distance")
 
     # the vector that is wrapped is the separation between the other point and this residue's centre
     other = [p_ for p_ in params if p_ not in (f.self_name, box, flag)][0]
